@@ -74,7 +74,8 @@ RuntimeError::RuntimeError(const Token &token, const Context &context, const std
 
     const Context *ctx = context.getParent();
     while (ctx != nullptr) {
-        os << "\n" << ctx->getName() << ", line " << ctx->switchToken->line << ", column " << ctx->switchToken->column;
+        if (ctx->switchToken != nullptr)
+            os << "\n" << ctx->getName() << ", line " << ctx->switchToken->line << ", column " << ctx->switchToken->column;
         Context *parent = ctx->getParent();
         ctx = parent;
     }
